@@ -2,7 +2,9 @@ import MidnightZK.Model.Common
 import MidnightZK.Model.C06.Edwards
 import MidnightZK.Model.C06.Weierstrass
 import MidnightZK.Model.C06.Fingerprint
+import MidnightZK.Model.C06.Htc
 import MidnightZK.Gen.C06Gates
+import MidnightZK.Gen.C06Htc
 /-! Line-protocol handler of property C06.
 
 Requests: `<curve> <op> <args…>` with `curve ∈ {jub, secp, bls}`.
@@ -17,6 +19,11 @@ def jub : EdCurve :=
     scalarBits := Gen.jubScalarBits }
 def secp : WCurve := { p := Gen.secpP, b := Gen.secpB, r := Gen.secpR, scalarBits := 256 }
 def bls : WCurve := { p := Gen.blsP, b := Gen.blsB, r := Gen.blsR, scalarBits := 255 }
+
+/-- Map-to-curve parameters of Jubjub as the sources have them (`Gen/C06Htc.lean`). -/
+def jubH : HtcParams :=
+  { p := Gen.nativeModulus, z := Gen.svdwZ, a := Gen.svdwA, b := Gen.svdwB, j := Gen.montJ,
+    k := Gen.montK }
 
 /-- Cofactor of BLS12-381 G1 hard-coded in `assert_in_bls12_381_subgroup`. -/
 def blsCofactor : Nat := 0x396c8c005555e1568c00aaab0000aaab
@@ -115,6 +122,49 @@ def answerJub (ws : List String) : String :=
     | some s, some p =>
       let s := s % jub.r
       jubAnswer (jub.mulByConstant s p.pt) [p] (jub.mulByConstantRows s p.pt)
+    | _, _ => "bad-op"
+  | ["htc_consts"] =>
+    -- `Z A B J K c1 c2 c3 c4`, the derived ones recomputed by the model from `Z`, `A`, `B`
+    match jubH.c3 with
+    | some c3 =>
+      " ".intercalate ([jubH.z, jubH.a, jubH.b, jubH.j, jubH.k, jubH.c1, jubH.c2, c3, jubH.c4].map toHex)
+    | none => "panic"
+  | ["htc_exceptional"] =>
+    let fmt := fun (l : List Nat) => if l.isEmpty then "-" else ",".intercalate (l.map toHex)
+    match jubH.c3 with
+    | some c3 =>
+      let z := jubH.zeroGxInputs c3
+      s!"{fmt jubH.exceptionalInputs} | {fmt z.1} | {fmt z.2}"
+    | none => "panic"
+  | ["map_to_curve", u] =>
+    match parseNat? u with
+    | some u =>
+      let f := fun (P : Nat × Nat) => s!"{toHex P.1}:{toHex P.2}"
+      match jubH.stages u, jubH.mapToCurve jub u with
+      | some (w, m, e), some out => s!"ok w={f w} m={f m} e={f e} out={f out}"
+      | _, _ => "panic"
+    | none => "bad-op"
+  | ["mtc_circuit", u] =>
+    -- the membership row of the Edwards point (`point_from_coordinates_unsafe`), then
+    -- `clear_cofactor` = `mul_by_constant(COFACTOR, ·)`
+    match parseNat? u with
+    | some u =>
+      match jubH.stages u, jubH.mapToCurve jub u with
+      | some (_, _, e), some out =>
+        let rows := EdCurve.pointRow e :: jub.mulByConstantRows (jub.h % jub.r) e
+        s!"ok {toHex out.1} {toHex out.2} | {fmtRows rows}"
+      | _, _ => "unsat"
+    | none => "bad-op"
+  | ["repr_j", x, y] =>
+    match parseNat? x, parseNat? y with
+    | some x, some y => toHex (HtcParams.reprJInt jub.p x y)
+    | _, _ => "bad-op"
+  | ["htc_glue", x1, x2] =>
+    match parseNat? x1, parseNat? x2 with
+    | some x1, some x2 =>
+      match jubH.hashGlue jub x1 x2 with
+      | some P => s!"ok {toHex P.1} {toHex P.2}"
+      | none => "panic"
     | _, _ => "bad-op"
   | ["mul_bits", nbits, s, p] =>
     -- `scalar_from_le_bytes` (256 bits) / `convert` (255 bits) followed by `msm` of one term
